@@ -246,7 +246,8 @@ Section Model.
     | IVec p => pv_hash L p
     | IList p => pl_hash L p
     | IQueue p => dq_hash L p
-    | IMap p | ISet p => m_hash L p
+    | IMap p => m_hash L p
+    | ISet p => keys_hash L (set_keys p)                                       (* self._hash() *)
     end.
   Definition tgt_eq (a b : tgt) : ires :=
     match a, b with
